@@ -919,6 +919,31 @@ func (fc *FCtx) specMethod(recv Val, name string, args []Val) (Val, bool) {
 			return Val{T: app("ctx_blockheight", recv.T), S: SInt}, true
 		case "ChainID":
 			return Val{T: app("ctx_chainid", recv.T), S: SStr}, true
+		case "HeaderHash":
+			fc.U.Fun("ctx_headerhash", []*Sort{recv.S}, fc.U.BzSort())
+			return Val{T: app("ctx_headerhash", recv.T), S: fc.U.BzSort()}, true
+		}
+		// any other side-effect-free accessor of sdk.Context that the code sees as an uninterpreted function of the
+		// context (e.g. VoteInfos): the same symbol
+		if recv.GoT != nil {
+			if obj, _, _ := types.LookupFieldOrMethod(recv.GoT, true, nil, name); obj != nil {
+				if fn, ok := obj.(*types.Func); ok && isPureExtern(fn.FullName()) {
+					sig := fn.Type().(*types.Signature)
+					if sig.Results().Len() == 1 && sig.Params().Len() == len(args) {
+						sorts := []*Sort{recv.S}
+						ts := []string{recv.T}
+						for _, a := range args {
+							sorts = append(sorts, a.S)
+							ts = append(ts, a.T)
+						}
+						rt := sig.Results().At(0).Type()
+						rs := fc.U.SortOf(rt)
+						fname := extFnName(fn.FullName(), sorts, 0)
+						fc.U.Fun(fname, sorts, rs)
+						return Val{T: app(fname, ts...), S: rs, GoT: rt}, true
+					}
+				}
+			}
 		}
 	}
 	if recv.GoT != nil && isTime(recv.GoT) || (recv.GoT == nil && recv.S.Kind == KInt) {
